@@ -16,6 +16,8 @@ Check (C02_remove_annotation_exact : forall ops h,
     (get_ann (fst (remove_ann (fuel_of s) s h)) x = None <-> In x (deps_ann s h))).
 Print Assumptions C02_remove_annotation_exact.
 Print Assumptions C02_closure_meaning.
+Print Assumptions C02_remove_resource_exact.
+Print Assumptions C02_remove_dataset_exact.
 Print Assumptions C02_nothing_dangles.
 Print Assumptions C02_every_step_keeps_the_store_sound.
 Print Assumptions C02_remove_annotation_cascade.
